@@ -41,5 +41,8 @@ for rel in rels:
     if kids:
       children['%s|%s' % (rel, q)] = [[k.name, len(astu.params(k))] for k in kids]
 out['__children__'] = children
+from vf import generic
+allrels = sorted({r for i in range(1, 21) for r in generic.anchors('C%02d' % i)})
+out['__live_params__'] = generic.live_table(Repo('/repo'), allrels)
 json.dump(out, open(reference.PATH, 'w'), indent=0, sort_keys=True)
-print('rules: %d, units: %d, table: %d' % (len(out) - 3, sum(len(v['units']) for k, v in out.items() if not k.startswith('__')), len(table)))
+print('rules: %d, units: %d, table: %d' % (len(out) - 4, sum(len(v['units']) for k, v in out.items() if not k.startswith('__')), len(table)))
